@@ -186,6 +186,7 @@ type Worker struct {
 	syncMaps     map[string]*Object
 	opaqueStr    map[int]Value
 	smtReads     map[string][]*Term
+	observes     []obsRec
 	domSlotCache map[*ssa.BasicBlock][]int
 	lazyNext     bool
 	LazyBranches int
@@ -568,6 +569,9 @@ func (w *Worker) externGlobalValue(g *ssa.Global, et types.Type) Value {
 	name := g.String()
 	if v, ok := w.prog.externGlobals[name]; ok {
 		return v(w, et)
+	}
+	if name == "io.Discard" {
+		return IfaceV{T: nopType, V: &OpaqueV{Kind: "nop", ID: w.newID()}}
 	}
 	if types.Identical(et, types.Universe.Lookup("error").Type()) {
 		e := &ErrV{ID: w.newID(), Msg: strV(w.ctx, name), Name: name}
